@@ -74,6 +74,33 @@ CORPUS = [
 ]
 
 
+def bound_history(g, pt, doc):
+    """A path bound to a document keeps following THAT document: after the caller edits it (a top-level entry replaced / added, an item
+    appended), a second resolution of the same path object gives what a fresh path bound to the same document gives."""
+    v = valida()
+    d = copy_value(doc)
+    try:
+        p = PathT(pt.parts, pt.mods, src=d, has_src=True).build()
+    except Exception:
+        return []
+    E.run_outcome(lambda: p.get_data(return_paths=True))
+    if isinstance(d, dict):
+        ks = list(d)
+        if ks:
+            d[g.r.choice(ks)] = g.value(2, 3)
+        d["_new"] = g.value(1, 2)
+    else:
+        d.append(g.value(2, 3))
+        if d:
+            d[0] = g.value(2, 3)
+    a = E.run_outcome(lambda: p.get_data(return_paths=True))
+    b = E.run_outcome(lambda: PathT(pt.parts, pt.mods, src=d, has_src=True).build().get_data(return_paths=True))
+    if a != b:
+        return [{"kind": "direct", "what": "a path bound to a document does not follow the document after the caller edited it",
+                 "path": pt.descr()[:300], "doc": jval(d), "reused": repr(a)[:200], "fresh": repr(b)[:200]}]
+    return []
+
+
 def gen(seed, n, mods_p=0.0):
     from ..pathterms import Prim
     g = Gen(seed)
@@ -137,11 +164,21 @@ def summarise(cases, k_bad, o_bad, nk, no, err, rule):
 def run(tier, seed, model_ok, spec_ok, replay=None):
     cases = gen(seed, 700 if tier == "quick" else 20000)
     k_bad, o_bad, nk, no, err = run_passes("c03", IMPORTS, cases, model_ok, spec_ok)
-    return summarise(cases, k_bad, o_bad, nk, no, err,
+    g2 = Gen(seed + 77)
+    pg2 = PathGen(CondGen(g2))
+    hist = []
+    for _ in range(150 if tier == "quick" else 3000):
+        d0 = g2.document(3, 4)
+        hist += bound_history(g2, pg2.path(d0, max_len=3, mods_p=0.0), d0)
+    res = summarise(cases, k_bad, o_bad, nk, no, err,
                      "paths of 0-4 parts mixing primitive / map / list / map-or-list parts with key, index and value "
                      "condition trees, generated by walking the document so that most select something (5% aimed at "
                      "scalars / empty containers), over the five entry points with and without return_paths; "
-                     "non-trivial = a non-empty path selecting at least one node; distinct by (path, document)")
+                     "non-trivial = a non-empty path selecting at least one node; distinct by (path, document); plus bound paths "
+                     "resolved, the bound document edited at the top level, resolved again and compared with a fresh bound path")
+    res["o_violations"] += hist
+    res["o_cases"] += 150 if tier == "quick" else 3000
+    return res
 
 
 def matches_known(known, case):
